@@ -32,6 +32,15 @@ pub(crate) struct Thread {
     /// Number of times the thread yielded
     pub yield_count: usize,
 
+    /// The `unpark` token: set by `unpark` unless the thread is blocked in
+    /// `park`, consumed by the next `park`. It is independent of the thread
+    /// being blocked on a lock, a notification, a channel or a join.
+    unparked: bool,
+
+    /// True while the thread is blocked in `park` (as opposed to being blocked
+    /// anywhere else).
+    parked: bool,
+
     locals: LocalMap,
 
     /// `tracing` span used to associate diagnostics with the current thread.
@@ -75,7 +84,7 @@ impl Id {
 
 #[derive(Debug, Clone, Copy)]
 pub(crate) enum State {
-    Runnable { unparked: bool },
+    Runnable,
     Blocked(#[allow(dead_code)] Location),
     Yield,
     Terminated,
@@ -93,7 +102,7 @@ impl Thread {
         Thread {
             id,
             span: tracing::info_span!(parent: parent_span.id(), "thread", id = id.id),
-            state: State::Runnable { unparked: false },
+            state: State::Runnable,
             critical: false,
             operation: None,
             causality: VersionVec::new(),
@@ -101,16 +110,32 @@ impl Thread {
             dpor_vv: VersionVec::new(),
             last_yield: None,
             yield_count: 0,
+            unparked: false,
+            parked: false,
             locals: HashMap::new(),
         }
     }
 
     pub(crate) fn is_runnable(&self) -> bool {
-        matches!(self.state, State::Runnable { .. })
+        matches!(self.state, State::Runnable)
     }
 
     pub(crate) fn set_runnable(&mut self) {
-        self.state = State::Runnable { unparked: false };
+        self.state = State::Runnable;
+        self.parked = false;
+    }
+
+    /// Block the thread in `park`, unless an `unpark` token is stored, which
+    /// is consumed instead. Returns `true` if the thread is now blocked.
+    pub(crate) fn set_parked(&mut self, location: Location) -> bool {
+        if self.unparked {
+            self.unparked = false;
+            return false;
+        }
+
+        self.state = State::Blocked(location);
+        self.parked = true;
+        true
     }
 
     pub(crate) fn set_blocked(&mut self, location: Location) {
@@ -155,13 +180,25 @@ impl Thread {
         self.set_unparked();
     }
 
-    /// Unpark a thread's state. If it is already runnable, store the unpark for
-    /// a future call to `park`.
-    fn set_unparked(&mut self) {
-        if self.is_blocked() || self.is_yield() {
+    /// Wake a thread that waits for a notification sent by `waker`
+    /// (condition variables, `Notify`).
+    pub(crate) fn wake(&mut self, waker: &Thread) {
+        self.causality.join(&waker.causality);
+
+        if self.is_blocked() && !self.parked {
             self.set_runnable();
-        } else if self.is_runnable() {
-            self.state = State::Runnable { unparked: true }
+        }
+    }
+
+    /// Unpark a thread's state. Only a thread blocked in `park` is woken;
+    /// otherwise the unpark is stored for a future call to `park`. In
+    /// particular it does not end a wait on a lock, a notification, a channel
+    /// or a join.
+    fn set_unparked(&mut self) {
+        if self.parked {
+            self.set_runnable();
+        } else if !self.is_terminated() {
+            self.unparked = true;
         }
     }
 }
@@ -314,6 +351,16 @@ impl Set {
         // Synchronize memory
         let (active, th) = self.active2_mut(id);
         th.unpark(active);
+    }
+
+    /// Wake `id`, which waits for a notification by the active thread.
+    pub(crate) fn wake(&mut self, id: Id) {
+        if id == self.active_id() {
+            return;
+        }
+
+        let (active, th) = self.active2_mut(id);
+        th.wake(active);
     }
 
     /// Insert a point of sequential consistency
